@@ -27,6 +27,9 @@ import (
 
 	"github.com/KafScale/platform/pkg/lfs"
 	"github.com/KafScale/platform/pkg/protocol"
+	"github.com/aws/aws-sdk-go-v2/aws"
+	"github.com/aws/aws-sdk-go-v2/service/s3"
+	"github.com/aws/smithy-go"
 	"github.com/twmb/franz-go/pkg/kmsg"
 )
 
@@ -148,10 +151,74 @@ func (b *verifC32Broker) serve(c net.Conn) {
 	_ = protocol.WriteFrame(c, out)
 }
 
+// ---------------------------------------------------------------- S3 error codes of unknown upload ids
+
+// verifC32S3 is the ghost S3 seen through the error surface of the real service: an upload id is UNKNOWN once the
+// upload was completed OR aborted (by the proxy, or behind its back: `lifecycle-abort`), and every call that names an
+// unknown id — UploadPart, CompleteMultipartUpload, AbortMultipartUpload — is answered with the API error
+// `NoSuchUpload` (a smithy.APIError, what the SDK hands to the proxy), never with success.
+type verifC32S3 struct {
+	*verifC3xS3
+	noSuchUpload int // calls answered NoSuchUpload (diagnostics)
+}
+
+func verifC32NoSuchUpload() error {
+	return &smithy.GenericAPIError{Code: "NoSuchUpload", Message: "The specified upload does not exist. The upload ID may be invalid, or the upload may have been aborted or completed.", Fault: smithy.FaultClient}
+}
+
+func (w *verifC32S3) known(id *string) bool {
+	w.verifC3xS3.mu.Lock()
+	defer w.verifC3xS3.mu.Unlock()
+	_, ok := w.verifC3xS3.uploads[aws.ToString(id)]
+	return ok
+}
+
+func (w *verifC32S3) apiErr(err error) error {
+	if err != nil && err.Error() == "verif: NoSuchUpload" {
+		w.verifC3xS3.mu.Lock()
+		w.noSuchUpload++
+		w.verifC3xS3.mu.Unlock()
+		return verifC32NoSuchUpload()
+	}
+	return err
+}
+
+func (w *verifC32S3) UploadPart(ctx context.Context, in *s3.UploadPartInput, o ...func(*s3.Options)) (*s3.UploadPartOutput, error) {
+	out, err := w.verifC3xS3.UploadPart(ctx, in, o...)
+	return out, w.apiErr(err)
+}
+
+func (w *verifC32S3) CompleteMultipartUpload(ctx context.Context, in *s3.CompleteMultipartUploadInput, o ...func(*s3.Options)) (*s3.CompleteMultipartUploadOutput, error) {
+	out, err := w.verifC3xS3.CompleteMultipartUpload(ctx, in, o...)
+	return out, w.apiErr(err)
+}
+
+func (w *verifC32S3) AbortMultipartUpload(ctx context.Context, in *s3.AbortMultipartUploadInput, o ...func(*s3.Options)) (*s3.AbortMultipartUploadOutput, error) {
+	known := w.known(in.UploadId)
+	out, err := w.verifC3xS3.AbortMultipartUpload(ctx, in, o...) // scripted faults and the schedule gate live there
+	if err == nil && !known {
+		return nil, w.apiErr(fmt.Errorf("verif: NoSuchUpload"))
+	}
+	return out, err
+}
+
+// lifecycleAbort removes every in-flight multipart upload behind the proxy's back (bucket lifecycle rule
+// AbortIncompleteMultipartUpload, an operator's `aws s3api abort-multipart-upload`): the ids become unknown.
+func (w *verifC32S3) lifecycleAbort() int {
+	w.verifC3xS3.mu.Lock()
+	defer w.verifC3xS3.mu.Unlock()
+	n := len(w.verifC3xS3.uploads)
+	for id := range w.verifC3xS3.uploads {
+		delete(w.verifC3xS3.uploads, id)
+	}
+	return n
+}
+
 // ---------------------------------------------------------------- harness state
 
 type verifC32State struct {
 	fs3      *verifC3xS3
+	api      *verifC32S3
 	m        *lfsModule
 	br       *verifC32Broker
 	defAlg   string
@@ -260,6 +327,34 @@ func (s *verifC32State) checksumFor(alg string, kind string, content []byte) str
 	return strings.ToUpper(sum) // the comparison is case-insensitive
 }
 
+// completeBody renders the JSON body of a completion request from `<n>:<ok|bad|empty>,…|-` (ok = the ETag the proxy
+// returned for that part number).
+func (s *verifC32State) completeBody(list string) []byte {
+	var creq lfsUploadCompleteRequest
+	if list != "-" {
+		for _, p := range strings.Split(list, ",") {
+			ne := strings.Split(p, ":")
+			n, _ := strconv.Atoi(ne[0])
+			etag := s.etags[n]
+			if etag == "" {
+				etag = "\"never-issued\""
+			}
+			switch ne[1] {
+			case "bad":
+				etag = "\"deadbeef\""
+			case "empty":
+				etag = ""
+			}
+			creq.Parts = append(creq.Parts, struct {
+				PartNumber int32  `json:"part_number"`
+				ETag       string `json:"etag"`
+			}{int32(n), etag})
+		}
+	}
+	body, _ := json.Marshal(creq)
+	return body
+}
+
 func (s *verifC32State) line(f []string) (out string) {
 	defer func() {
 		if r := recover(); r != nil {
@@ -278,6 +373,8 @@ func (s *verifC32State) line(f []string) (out string) {
 		s.fs3 = verifC3xNewS3()
 		s.defAlg = f[2]
 		s.m = verifC3xModule(s.fs3, maxBlob, f[2], nil)
+		s.api = &verifC32S3{verifC3xS3: s.fs3}
+		s.m.s3Uploader.api = s.api // the same ghost S3, with the real service's error codes for unknown upload ids
 		s.sessID, s.sessKey, s.etags = "", "", map[int]string{}
 		return "new"
 	case "produce":
@@ -365,36 +462,15 @@ func (s *verifC32State) line(f []string) (out string) {
 		}
 		return s.outcome("part", rr, s.sessKey, s.sessTail())
 	case "complete":
-		var creq lfsUploadCompleteRequest
-		if f[1] != "-" {
-			for _, p := range strings.Split(f[1], ",") {
-				ne := strings.Split(p, ":")
-				n, _ := strconv.Atoi(ne[0])
-				etag := s.etags[n]
-				if etag == "" {
-					etag = "\"never-issued\""
-				}
-				switch ne[1] {
-				case "bad":
-					etag = "\"deadbeef\""
-				case "empty":
-					etag = ""
-				}
-				creq.Parts = append(creq.Parts, struct {
-					PartNumber int32  `json:"part_number"`
-					ETag       string `json:"etag"`
-				}{int32(n), etag})
-			}
-		}
+		creq := s.completeBody(f[1])
 		s.fs3.failComplet = f[2] == "1"
 		s.setBroker(f[3])
 		id := s.sessID
 		if id == "" {
 			id = "no-such-session"
 		}
-		body, _ := json.Marshal(creq)
 		rr := httptest.NewRecorder()
-		s.m.handleHTTPUploadSession(rr, httptest.NewRequest(http.MethodPost, "/lfs/uploads/"+id+"/complete", bytes.NewReader(body)))
+		s.m.handleHTTPUploadSession(rr, httptest.NewRequest(http.MethodPost, "/lfs/uploads/"+id+"/complete", bytes.NewReader(creq)))
 		s.fs3.failComplet = false
 		return s.outcome("complete", rr, s.sessKey, s.sessTail())
 	case "par":
@@ -407,6 +483,12 @@ func (s *verifC32State) line(f []string) (out string) {
 		rr := httptest.NewRecorder()
 		s.m.handleHTTPUploadSession(rr, httptest.NewRequest(http.MethodDelete, "/lfs/uploads/"+id, nil))
 		return s.outcome("abort", rr, s.sessKey, s.sessTail())
+	case "lifecycle-abort":
+		// S3 drops the in-flight multipart upload behind the proxy's back; the proxy's session stays
+		s.api.lifecycleAbort()
+		rr := httptest.NewRecorder()
+		rr.Code = 0
+		return s.outcome("lifecycle-abort", rr, s.sessKey, s.sessTail())
 	case "expire":
 		s.m.uploadMu.Lock()
 		if sess, ok := s.m.uploadSessions[s.sessID]; ok {
@@ -488,7 +570,7 @@ func (s *verifC32State) par(reqs []string) string {
 	gated, finished, maxGated := 0, 0, 0
 	open := make(chan struct{})
 	s.fs3.gate = func(op string, pn int32) {
-		if op != "UploadPart" {
+		if op != "UploadPart" && op != "AbortMultipartUpload" {
 			return
 		}
 		select {
@@ -511,12 +593,25 @@ func (s *verifC32State) par(reqs []string) string {
 	}
 	codes := make([]int, k)
 	recs := make([]*httptest.ResponseRecorder, k)
+	completeAt := -1
 	var wg sync.WaitGroup
 	for i, rq := range reqs {
 		g := strings.Split(rq, ":")
 		var req *http.Request
-		switch g[0] {
-		case "part":
+		switch {
+		case strings.HasPrefix(rq, "complete/"):
+			// complete/<list>/<s3Fails>/<broker>: at most one per par (the scripted broker has one mode)
+			c := strings.SplitN(rq, "/", 4)
+			if len(c) != 4 || completeAt >= 0 {
+				continue
+			}
+			completeAt = i
+			s.setBroker(c[3])
+			req = httptest.NewRequest(http.MethodPost, "/lfs/uploads/"+id+"/complete", bytes.NewReader(s.completeBody(c[1])))
+			if c[2] == "1" {
+				req = req.WithContext(verifC3xWithScript(context.Background(), []*verifC3xFault{{op: "CompleteMultipartUpload", once: true}}))
+			}
+		case g[0] == "part":
 			n, _ := strconv.Atoi(g[1])
 			ln, _ := strconv.Atoi(g[2])
 			fill, _ := strconv.Atoi(g[3])
@@ -565,6 +660,12 @@ func (s *verifC32State) par(reqs []string) string {
 				s.etags[n] = resp.ETag
 			}
 		}
+	}
+	if completeAt >= 0 {
+		// the completion's envelope / object / broker facts, rendered like a `complete` line
+		ln := s.outcome("par", recs[completeAt], s.sessKey, s.sessTail())
+		ln = strings.Replace(ln, fmt.Sprintf("par status=%d ", recs[completeAt].Code), "par status="+strings.Join(sts, ",")+" ", 1)
+		return ln + fmt.Sprintf(" overlap=%d", maxGated)
 	}
 	objS := "none"
 	if s.sessKey != "" {
